@@ -70,6 +70,46 @@ class ExpandOrdered(ExpansionStrategy):
             self.descending, self.ignore_parent, self.inferrable, self.possibly_empty, self.workable)
 
 
+class PermExpand(ExpansionStrategy):
+    """ExpansionStrategy whose letter children come in the order `perm` (a list: a permutation of the
+    letter indices, ignored when it is not one); `meta` is carried along untouched.  Both settings are
+    CONTAINERS (list / dict with nested lists), stored exactly as given (JSON values)."""
+
+    def __init__(self, perm=None, meta=None, ignore_parent=False, inferrable=True, possibly_empty=True,
+                 workable=True):
+        super().__init__(ignore_parent=ignore_parent, inferrable=inferrable, possibly_empty=possibly_empty,
+                         workable=workable)
+        self.perm = [] if perm is None else perm
+        self.meta = {} if meta is None else meta
+
+    def decomposition_function(self, avoiding_with_prefix):
+        ch = super().decomposition_function(avoiding_with_prefix)
+        if ch is None:
+            return None
+        letters = ch[1:]
+        if isinstance(self.perm, list) and all(type(i) is int for i in self.perm) and \
+                sorted(self.perm) == list(range(len(letters))):
+            letters = tuple(letters[i] for i in self.perm)
+        return (ch[0],) + tuple(letters)
+
+    def formal_step(self):
+        return "prefix or append a letter (order %r)" % (self.perm,)
+
+    def to_jsonable(self):
+        d = super().to_jsonable()
+        d["perm"] = self.perm
+        d["meta"] = self.meta
+        return d
+
+    @classmethod
+    def from_dict(cls, d):
+        return cls(**d)
+
+    def __repr__(self):
+        return "PermExpand(perm=%r, meta=%r, ignore_parent=%r, inferrable=%r, possibly_empty=%r, workable=%r)" % (
+            self.perm, self.meta, self.ignore_parent, self.inferrable, self.possibly_empty, self.workable)
+
+
 class GenExpand(DisjointUnionStrategy[CombinatorialClassType, CombinatorialObjectType]):
     """The same union as a GENERIC class: GenExpand[A, B](...) is a legal way to create it."""
 
@@ -348,6 +388,7 @@ STRATS = {
     "AtomStrategy": (AtomStrategy, 0),
     "EmptyStrategy": (EmptyStrategy, 0),
     "ExpandOrdered": (ExpandOrdered, 1),
+    "PermExpand": (PermExpand, 1),
     "GenExpand": (GenExpand, 1),
     "RemoveFront": (RemoveFront, 1),
     "SwapLetters": (SwapLetters, 1),
@@ -356,6 +397,8 @@ STRATS = {
     "ExpandFactory": (ExpandFactory, 1),
     "ParentExpandFactory": (ParentExpandFactory, 1),
 }
+# defaults written as None in a signature that denote a fresh empty container
+EFFECTIVE_DEFAULTS = {"PermExpand": {"perm": [], "meta": {}}}
 # classes that can be created through a subscripted alias (they are still generic)
 GENERIC = {"EmptyStrategy": EmptyStrategy, "GenExpand": GenExpand}
 CLASSES = {"AvoidingWithPrefix": AvoidingWithPrefix}
@@ -444,8 +487,10 @@ def search(start, pack, db, seed, max_levels=10, seconds=4):
     every process (given PYTHONHASHSEED).  None when nothing is found.
     """
     random.seed(seed)
-    old = signal.signal(signal.SIGALRM, _alarm)
-    signal.alarm(seconds)
+    # CPU time of this process, not wall-clock time: the same recipe must give the same result in the
+    # model-side and the implementation-side worker even when the machine is loaded
+    old = signal.signal(signal.SIGVTALRM, _alarm)
+    signal.setitimer(signal.ITIMER_VIRTUAL, seconds)
     try:
         css = CombinatorialSpecificationSearcher(start, pack, ruledb=_ruledb(db))
         for _ in range(max_levels):
@@ -459,8 +504,8 @@ def search(start, pack, db, seed, max_levels=10, seconds=4):
             return css.get_specification(minimization_time_limit=0)
         return None
     finally:
-        signal.alarm(0)
-        signal.signal(signal.SIGALRM, old)
+        signal.setitimer(signal.ITIMER_VIRTUAL, 0)
+        signal.signal(signal.SIGVTALRM, old)
 
 
 def find_bijection(c1, c2, pack1, pack2, seed, seconds=8):
@@ -468,8 +513,10 @@ def find_bijection(c1, c2, pack1, pack2, seed, seconds=8):
     from comb_spec_searcher.isomorphism import Bijection
 
     random.seed(seed)
-    old = signal.signal(signal.SIGALRM, _alarm)
-    signal.alarm(seconds)
+    # CPU time of this process, not wall-clock time: the same recipe must give the same result in the
+    # model-side and the implementation-side worker even when the machine is loaded
+    old = signal.signal(signal.SIGVTALRM, _alarm)
+    signal.setitimer(signal.ITIMER_VIRTUAL, seconds)
     try:
         specs = ParallelSpecFinder(
             CombinatorialSpecificationSearcher(c1, pack1), CombinatorialSpecificationSearcher(c2, pack2)
@@ -478,5 +525,5 @@ def find_bijection(c1, c2, pack1, pack2, seed, seconds=8):
             return None
         return Bijection.construct(*specs)
     finally:
-        signal.alarm(0)
-        signal.signal(signal.SIGALRM, old)
+        signal.setitimer(signal.ITIMER_VIRTUAL, 0)
+        signal.signal(signal.SIGVTALRM, old)
